@@ -8,11 +8,11 @@ def scan(n, extra=None, locs=None, slack=False):
     ub = "g_len + g_slack" if slack else "g_len"
     return {"function": "H::body\\(this\\)", "loop": n, "locals": (locs or []),
             "invariants": ["0 <= *gp_off && *gp_off <= %s" % ub] + (extra or []), "assigns": ["*gp_off"], "decreases": "%s - *gp_off" % ub}
-GH = ["g_pnoff", "g_pvoff", "g_ncalls", "g_nsets", "g_set_kind", "g_set_param", "g_set_bval", "g_set_ival", "g_set_init",
+GH = ["g_threw", "g_pnoff", "g_pvoff", "g_ncalls", "g_nsets", "g_set_kind", "g_set_param", "g_set_bval", "g_set_ival", "g_set_init",
       "g_set_ret", "g_spec_bval", "g_type_tag", "g_name_seed_ok", "g_toff", "g_noff", "g_voff", "g_set_rval", "g_set_uval"]
 def ploop(n, count, tab, locs, scope):
     return {"function": "H::body\\(this\\)", "loop": n, "locals": [["param", "%d::1::param" % scope]] + locs,
-            "invariants": ["0 <= param && param <= %s" % count, "g_nsets == 0",
+            "invariants": ["0 <= param && param <= %s" % count, "g_nsets == 0", "g_threw == 0",
                            "(0 <= g_q && g_q < param) ==> %s[g_q] == 0" % tab],
             "assigns": ["param"] + locs + GH, "decreases": "%s - param" % count}
 def clean(v, extra):
@@ -42,7 +42,7 @@ SIG = {"line": "bool\\s+SoPlexBase<R>::_parseSettingsLine\\s*\\(\\s*char\\*\\s*l
        "string": "bool\\s+SoPlexBase<R>::parseSettingsString\\s*\\(\\s*char\\*\\s*string\\s*\\)"}
 FN = {"line": "SoPlexBase<R>::_parseSettingsLine(char* line, const int lineNumber)", "string": "SoPlexBase<R>::parseSettingsString(char* string)"}
 INC = {"line": "parseSettingsLine.inc", "string": "parseSettingsString_B.inc"}
-MUST = ["strncmp\\(paramTypeString, \"bool\", 4\\)", "_currentSettings->boolParam\\.name\\[param\\]\\.c_str\\(\\)", "std::stoi\\(paramValueString\\)",
+MUST = ["try\\s*\\{\\s*value = std::stoi\\(paramValueString\\);\\s*\\}\\s*catch", "try\\s*\\{\\s*parseval = std::stoul\\(paramValueString\\);\\s*\\}\\s*catch", "strncmp\\(paramTypeString, \"bool\", 4\\)", "_currentSettings->boolParam\\.name\\[param\\]\\.c_str\\(\\)", "std::stoi\\(paramValueString\\)",
         "std::stod\\(paramValueString\\)", "setIntParam\\(\\(SoPlexBase<R>::IntParam\\)param, value, false\\)"]
 SLICES = {
  "line": [{"as": "parseSettingsLine.inc", "file": "src/soplex.hpp", "sig": SIG["line"], "must_contain": MUST}],
@@ -54,36 +54,36 @@ SLICES = {
    {"as": "parseSettingsString_B.inc", "file": "src/soplex.hpp", "region_start": "(?<=char\\* line = parseString;)\\s*// find the start of the parameter type", "region_end": "\\}\\s*/// writes settings file; returns true on success",
     "must_contain": MUST}]}
 def muts(inc, kind):
-    m = {
-     "c15": [
+    fn = "line" if inc == "parseSettingsLine.inc" else "string"
+    STEP = "if\\(\\*line != '\\\\0'\\)\\s*\\{\\s*\\*line = '\\\\0';\\s*line\\+\\+;\\s*\\}"
+    m = [
+       # --- the defects fixed in /repo, re-seeded (reverse of each fix hunk) ---
+       {"name": "old_defect_steps_over_terminator_type", "slice": inc, "regex": True, "find": "(// do not step over the end of the string\\s*)" + STEP + "(\\s*// search for the ':' char)", "replace": "\\1*line = '\\\\0'; line++;\\2"},
+       {"name": "old_defect_steps_over_terminator_name", "slice": inc, "regex": True, "find": "(// do not step over the end of the string\\s*)" + STEP + "(\\s*// search for the '=' char)", "replace": "\\1*line = '\\\\0'; line++;\\2"},
+       {"name": "old_defect_stoi_uncaught", "slice": inc, "regex": True, "find": "try\\s*\\{\\s*(value = std::stoi\\(paramValueString\\);)\\s*\\}\\s*catch\\(const std::exception&\\)\\s*\\{.*?return false;\\s*\\}", "replace": "\\1"},
+       {"name": "old_defect_stod_uncaught", "slice": inc, "regex": True, "find": "try\\s*\\{\\s*(value = std::stod\\(paramValueString\\);)\\s*\\}\\s*catch\\(const std::exception&\\)\\s*\\{.*?return false;\\s*\\}", "replace": "\\1"},
+       {"name": "old_defect_stoul_uncaught", "slice": inc, "regex": True, "find": "try\\s*\\{\\s*(parseval = std::stoul\\(paramValueString\\);)\\s*\\}\\s*catch\\(const std::exception&\\)\\s*\\{.*?return false;\\s*\\}", "replace": "\\1"},
+       # --- seeded faults ---
        {"name": "bool_value_swapped", "slice": inc, "find": "success = setBoolParam((SoPlexBase<R>::BoolParam)param, true);", "replace": "success = setBoolParam((SoPlexBase<R>::BoolParam)param, false);"},
        {"name": "wrong_param", "slice": inc, "find": "if(setIntParam((SoPlexBase<R>::IntParam)param, value, false))", "replace": "if(setIntParam((SoPlexBase<R>::IntParam)(param + 1), value, false))"},
        {"name": "table_overrun", "slice": inc, "find": "if(param >= SoPlexBase<R>::REALPARAM_COUNT)", "replace": "if(param > SoPlexBase<R>::REALPARAM_COUNT)"},
        {"name": "setter_result_ignored", "slice": inc, "find": "if(setRealParam((SoPlexBase<R>::RealParam)param, value))", "replace": "if(setRealParam((SoPlexBase<R>::RealParam)param, value) || true)"},
        {"name": "writes_non_terminator", "slice": inc, "regex": True, "find": "(if\\(\\*line == '='\\)\\s*\\{\\s*)\\*line = '\\\\0';", "replace": "\\1*line = ' ';"},
        {"name": "value_end_not_terminated", "slice": inc, "regex": True, "find": "(// check, if the rest of the line is clean\\s*)\\*line = '\\\\0';", "replace": "\\1"},
-     ],
-     "exact": [
-       {"name": "skips_terminator_check", "slice": inc, "regex": True, "find": "(// find the end of the parameter value string.*?)&& \\*line != '\\\\0'\\)", "replace": "\\1)"},
-     ],
-     "nothrow": [
-       {"name": "bool_value_swapped", "slice": inc, "find": "success = setBoolParam((SoPlexBase<R>::BoolParam)param, true);", "replace": "success = setBoolParam((SoPlexBase<R>::BoolParam)param, false);"},
-     ]}
-    sel = {"line": {"c15": ["bool_value_swapped", "wrong_param", "writes_non_terminator", "value_end_not_terminated"]},
-           "string": {"c15": ["table_overrun", "setter_result_ignored", "bool_value_swapped"]}}
-    fn = "line" if inc == "parseSettingsLine.inc" else "string"
-    if kind in sel[fn]:
-        return [x for x in m[kind] if x["name"] in sel[fn][kind]]
-    return m[kind]
+       {"name": "name_prefix_match_real", "slice": inc, "regex": True, "find": "(_currentSettings->realParam\\.name\\[param\\]\\.c_str\\(\\),\\s*)SPX_SET_MAX_LINE_LEN", "replace": "\\1_currentSettings->realParam.name[param].size()"},
+       {"name": "name_prefix_match_int", "slice": inc, "regex": True, "find": "(_currentSettings->intParam\\.name\\[param\\]\\.c_str\\(\\),\\s*)SPX_SET_MAX_LINE_LEN", "replace": "\\1_currentSettings->intParam.name[param].size()"},
+    ]
+    sel = {"line": None,
+           "string": ["old_defect_steps_over_terminator_type", "old_defect_steps_over_terminator_name", "old_defect_stoi_uncaught", "old_defect_stod_uncaught",
+                      "old_defect_stoul_uncaught", "table_overrun", "setter_result_ignored", "name_prefix_match_real"]}
+    return [x for x in m if sel[fn] is None or x["name"] in sel[fn]]
 def inst(fn, kind, order):
-    d = {"INST_LINE" if fn == "line" else "INST_STRING": "", "SLACK": "0" if kind == "exact" else "1"}
-    if kind == "nothrow":
-        d["NOTHROW"] = ""
+    d = {"INST_LINE" if fn == "line" else "INST_STRING": "", "SLACK": "0"}
     lo = loops(order, fn)
     i = {"name": "%s_%s" % (fn, kind), "function": FN[fn], "defines": d,
          "harness": "h_" + fn, "enforce": "w_" + fn,
          "slices": SLICES[fn],
-         "loops": lo, "min_obligations": 2000, "expected_s": 90 if kind == "c15" else 240, "tier": "quick" if kind == "c15" else "thorough",
+         "loops": lo, "min_obligations": 2000, "expected_s": 90 if kind == "c15" else 240, "tier": "quick",
          "mutants": muts(INC[fn], kind)}
     return i
 import sys
@@ -121,9 +121,10 @@ u = {
    "_currentSettings->xParam.name[i].c_str() is an opaque handle (index asserted < xPARAM_COUNT); strncmp(token, handle, SPX_SET_MAX_LINE_LEN) == 0 iff an ARBITRARY harness-chosen match table says so (covers every possible name table incl. duplicate names); the stub asserts the token is a C string inside the buffer",
    "strncmp/strncasecmp against string literals are loop-free executable models for n <= 12 reading exactly the bytes the C functions read (ASCII case folding)",
    "strtol(s, nullptr, 4|5), std::stoi, std::stod, std::stoul are stubs: they assert that s is a C string inside the buffer and return harness-chosen values; 'the parsed value' in the C15 clause is that return value. For bool it is: case-insensitive prefix true / exact t, or strtol(.,4)==1 => true; prefix false / exact f, or strtol(.,5)==0 => false",
-   "std::stoi/stod/stoul may throw (std::invalid_argument / std::out_of_range): in the *_exact and *_c15 instances a throw ends the path (throw allowed); the *_nothrow instances assert that no throw happens",
+   "std::stoi/stod/stoul may throw (std::invalid_argument / std::out_of_range) for any value token: exceptions are modelled by a flag (`#define try`, `#define catch(d) if(g_threw)`, the throwing stub sets g_threw and returns) - exact because the throwing call is the last statement of its try block (must_contain pins that); the contract demands: a throw => false is returned and no setter was called",
    "parseSettingsString: spxSnprintf stub fills the local copy with arbitrary bytes and a terminator within SPX_SET_MAX_LINE_LEN-2 (over-approximates every copy; relation of the copy to the source text is not modelled); bytes behind the terminator are arbitrary (stack garbage)",
-   "*_c15 and *_nothrow instances (SLACK=1) assume ONE extra readable NUL byte behind the string terminator, which isolates the known over-read (DESIGN 6.3) in the *_exact instances (SLACK=0: exactly sized buffer / arbitrary bytes behind the terminator)",
+   "the buffer is exactly sized: the terminator may sit in the last byte and the bytes behind it (stale bytes of a previous line) are arbitrary; nothing behind the terminator may be read (instances line_c15 / string_c15 now carry what *_exact and *_nothrow carried before the fixes 5bade9d / 2401557)",
+   "NameRef::size() (used only by the prefix-match mutant) returns a length < SPX_SET_MAX_LINE_LEN; strncmp(token, name, n < SPX_SET_MAX_LINE_LEN) == 0 iff the token equals the name or, by a second arbitrary table, merely starts like it",
    "the scanning cursor `line` has the stub type LineCursor (offset into the ghost-known buffer; operations *line, line++, conversion to char*) instead of char*: in _parseSettingsLine it is the by-value parameter (bound in a prologue), in parseSettingsString the ONE declaration `char* line = parseString;` of the body is replaced by `LineCursor line(parseString);` (the body is sliced as two verbatim regions around it; must_contain pins the dropped text). Reason: CBMC cannot havoc a raw pointer loop variable efficiently; every access through the cursor is bounds/pointer-checked as gp_line[off]",
    "token_clean(): when a setter is reached, each of the three tokens is checked to end before any blank/newline/comment character (first NUL behind the token start chosen nondeterministically and pinned down by constant-range quantifiers, its existence asserted first)",
    "the line buffer is capped: quick tier 64 bytes, thorough tier 96 bytes (SPX_SET_MAX_LINE_LEN overridden by CAP+1; the loop proofs are inductive in the line length, the cap bounds the object size only). One run of line_c15 at the tree value 500 passed during development (176 s solver time before the token_clean obligations were added); it is too slow for the tiers",
@@ -134,7 +135,7 @@ u = {
 import os
 orders = {"line": list(range(12)) + [8], "string": list(range(12)) + [8]}
 for fn in ("line", "string"):
-    for kind in ("c15", "exact", "nothrow"):
+    for kind in ("c15",):
         u["instances"].append(inst(fn, kind, orders[fn]))
 def fix(o):
     if isinstance(o, dict): return {k: fix(v) for k, v in o.items()}
